@@ -604,6 +604,8 @@ impl<R: BufRead> NsReader<R> {
     pub fn read_to_end_into(&mut self, end: QName, buf: &mut Vec<u8>) -> Result<Span> {
         // According to the https://www.w3.org/TR/xml11/#dt-etag, end name should
         // match literally the start name. See `Config::check_end_names` documentation
+        // The scope of the last `Empty` or `End` event read before this call is finished
+        self.pop();
         let result = self.reader.read_to_end_into(end, buf)?;
         // The closing tag was consumed by the plain reader, so the scope opened
         // by the corresponding `Start` event is finished
@@ -844,6 +846,8 @@ impl<'i> NsReader<&'i [u8]> {
     pub fn read_to_end(&mut self, end: QName) -> Result<Span> {
         // According to the https://www.w3.org/TR/xml11/#dt-etag, end name should
         // match literally the start name. See `Config::check_end_names` documentation
+        // The scope of the last `Empty` or `End` event read before this call is finished
+        self.pop();
         let result = self.reader.read_to_end(end)?;
         // The closing tag was consumed by the plain reader, so the scope opened
         // by the corresponding `Start` event is finished
@@ -918,6 +922,8 @@ impl<'i> NsReader<&'i [u8]> {
     /// [`decoder()`]: Reader::decoder()
     #[inline]
     pub fn read_text(&mut self, end: QName) -> Result<Cow<'i, str>> {
+        // The scope of the last `Empty` or `End` event read before this call is finished
+        self.pop();
         let result = self.reader.read_text(end)?;
         // The closing tag was consumed by the plain reader, so the scope opened
         // by the corresponding `Start` event is finished
